@@ -358,6 +358,35 @@ pub fn run(ctx: &Ctx) -> Result<(), String> {
         return Err(e);
     }
     ctx.cov("responder_batch_sequences", json!(rhist.len()));
+    // and through the whole server (which decides what bytes become the leaf): bursts of requests of
+    // every aligned size class 1024..=1500, both protocols mixed, on one long-running in-process Server
+    {
+        use crate::inproc::{Srv, SrvCfg};
+        let sizes: Vec<usize> = ctx.tier.pick(vec![1024, 1028, 1100, 1496, 1500], (1024..=1500).step_by(4).collect());
+        let r = crate::util::on_named_thread("worker-0", || -> Result<Vec<(String, String, Value)>, String> {
+            let mut out = vec![];
+            let mut srv = Srv::new(&SrvCfg::default())?;
+            for (si, &size) in sizes.iter().enumerate() {
+                for k in [1usize, 3, 5] {
+                    for mix in super::c02::mixes(k) {
+                        let b = super::c02::Burst { mix, size, srv: si % 2 == 1 };
+                        let hist = json!({"request_size": size, "burst": k});
+                        let res = super::c02::run_burst(&mut srv, &b, ((si * 100 + k) as u64) << 32, &hist)?;
+                        out.extend(res.violations);
+                        if srv.dead {
+                            return Ok(out);
+                        }
+                    }
+                }
+            }
+            Ok(out)
+        })?;
+        evals.fetch_add(sizes.len() as u64 * 3, Relaxed);
+        for (clause, class, d) in r {
+            ctx.violation(&format!("issued-proof-{}", clause), "server", &format!("{}/request-size", class), d);
+        }
+        ctx.cov("server_request_sizes", json!(sizes.len()));
+    }
 
     let ev = evals.load(Relaxed);
     ctx.cov("evaluations", json!(ev));
